@@ -126,4 +126,32 @@ Section Pop.
     Ok (child, snd ct).
   Definition cross_or_climb (parents : list pos) (t : tape) : res (pos * tape * Z) :=
     do ct <- recombine parents t; or_climb (fst ct) (snd ct) 0.
+
+  (* ---------- EvolutionStrategyOptimizer.iterate ----------
+     one individual: its own hill-climbing iterate.  Otherwise: rnd_int = random.randint(0, P-1) picks p_current from the
+     population sorted by score (the order is an oracle: `curs` lists pos_current in that order); rand = np.random.uniform(0,
+     mutation_rate + crossover_rate); rand <= mutation_rate: p_current's hill-climbing iterate; else _cross: a second index by
+     random.choice (different from rnd_int, below P-1 when P > 2), discrete recombination of the two current positions, constraint
+     test / move_climb fallback *)
+  Definition hill_iterate (t : tape) : res (pos * tape * Z) :=
+    rand_iter t 0 (fun t1 => move_climb sp cons fuel t1 0).
+
+  Definition dyadic_le (am ae bm be : Z) : bool := negb (dyadic_gt am ae bm be).
+
+  Definition es_iterate (mut : Z * Z) (curs : list pos) (t : tape) : res (pos * tape * Z) :=
+    let P := zlen curs in
+    if P =? 1 then hill_iterate t else
+    match t with
+    | DZ r :: DF um ue :: t1 =>
+        if negb ((0 <=? r) && (r <? P)) then Err BadOracle else
+        if dyadic_le um ue (fst mut) (snd mut) then hill_iterate t1 else
+        match t1 with
+        | DZ r2 :: t2 =>
+            if negb ((0 <=? r2) && (r2 <? (if 2 <? P then P - 1 else P)) && negb (r2 =? r)) then Err BadOracle else
+            do a <- nth_nowrap curs r; do b <- nth_nowrap curs r2;
+            cross_or_climb [a; b] t2
+        | _ => Err OutOfTape
+        end
+    | _ => Err OutOfTape
+    end.
 End Pop.
